@@ -10,8 +10,8 @@
    every view's isActive bits). *)
 From Coq Require Import List Arith Bool NArith.
 From FFSM2 Require Import Model.TaskList Model.BitArray Model.BitStream Model.Plan Model.Ancestors Model.Machine
-  Proofs.BitArrayProofs Proofs.MachineFrame Proofs.MachinePlan Proofs.MachineLife Proofs.GuardProofs Proofs.CycleProofs Proofs.PlanStep
-  Proofs.SerialProofs Proofs.LogProofs Proofs.MachineTop Model.Multi Generated.InitFacts Proofs.ConstructProofs Proofs.LifeMonitor Proofs.ActivationRounds Proofs.IndexSafety Proofs.FeatureProofs.
+  Proofs.BitArrayProofs Proofs.TaskListProofs Proofs.TaskListRun Proofs.PlanProofs Proofs.MachineFrame Proofs.MachinePlan Proofs.MachineLife Proofs.GuardProofs Proofs.CycleProofs Proofs.PlanStep
+  Proofs.SerialProofs Proofs.LogProofs Proofs.MachineTop Model.Multi Generated.InitFacts Proofs.ConstructProofs Proofs.LifeMonitor Proofs.ActivationRounds Proofs.IndexSafety Proofs.FeatureProofs Model.Script Proofs.Contract.
 Import ListNotations.
 
 (* every API history from construction, every behaviour of the callbacks, every n <= 255, capacity, limit, activation
@@ -115,26 +115,51 @@ Print Assumptions C01_change_only_lifecycle.
 (* in any accepted trace the next own lifecycle callback of a state after enter(k) is exit(k) or reenter(k) *)
 Theorem C01_after_enter_comes_exit_or_reenter :
   forall (P : Type) (n : nat) (l3 : list (event P)) (e2 : event P) (l2 : list (event P)) 
-           (k : nat) (v : view P) (l1 : list (event P)) (st st' : lstate),
+           (k : nat) (v : Machine.view P) (l1 : list (event P)) (st st' : lstate),
          mon P n (l3 ++ e2 :: l2 ++ EvCb P (St k) Own MEnter v :: l1) st = Some st' ->
          forallb (fun e : event P => negb (state_life P e)) l2 = true ->
          state_life P e2 = true ->
-         exists v2 : view P, e2 = EvCb P (St k) Own MExit v2 \/ e2 = EvCb P (St k) Own MReenter v2.
+         exists v2 : Machine.view P, e2 = EvCb P (St k) Own MExit v2 \/ e2 = EvCb P (St k) Own MReenter v2.
 Proof. exact (accepted_after_enter). Qed.
 Print Assumptions C01_after_enter_comes_exit_or_reenter.
 
 Theorem C01_no_two_enters_without_exit :
-  forall (P : Type) (n : nat) (l3 : list (event P)) (k2 : nat) (v2 : view P) 
-           (l2 : list (event P)) (k1 : nat) (v1 : view P) (l1 : list (event P)) (st st' : lstate),
+  forall (P : Type) (n : nat) (l3 : list (event P)) (k2 : nat) (v2 : Machine.view P)
+           (l2 : list (event P)) (k1 : nat) (v1 : Machine.view P) (l1 : list (event P)) 
+           (st st' : lstate),
          mon P n (l3 ++ EvCb P (St k2) Own MEnter v2 :: l2 ++ EvCb P (St k1) Own MEnter v1 :: l1) st = Some st' ->
          existsb (own_exit_of P k1) l2 = true.
 Proof. exact (accepted_enter_enter). Qed.
 Print Assumptions C01_no_two_enters_without_exit.
 
 Theorem C01_views_show_the_entered_state :
-  forall (P : Type) (n : nat) (l2 : list (event P)) (k : nat) (m : method) (v : view P)
+  forall (P : Type) (n : nat) (l2 : list (event P)) (k : nat) (m : method) (v : Machine.view P)
            (l1 : list (event P)) (st st' : lstate),
          mon P n (l2 ++ EvCb P (St k) Own m v :: l1) st = Some st' -> is_life m = true -> v_act P v = bits n k.
 Proof. exact (accepted_life_view). Qed.
 Print Assumptions C01_views_show_the_entered_state.
+
+(* the correspondence check's scripted callbacks satisfy wf_oracle when the extracted test table_okb says so (the model
+   runner evaluates it for every script) *)
+Theorem C01_scripted_callbacks_are_in_the_domain :
+  forall (P : Type) (cfg : config) (tab : list (entry P)),
+         table_okb P cfg tab = true -> wf_oracle P cfg (table_oracle P tab).
+Proof. exact (table_oracle_wf). Qed.
+Print Assumptions C01_scripted_callbacks_are_in_the_domain.
+
+(* ... and an operation the extracted test in_contractb accepts is in_contract (the model runner evaluates
+   first_violation for every script and the check skips a script that is not) *)
+Theorem C01_scripted_operations_are_in_the_domain :
+  forall (P : Type) (cfg : config) (s : mstate P) (op : api_op P),
+         in_contractb P cfg s op = true -> in_contract P cfg s op.
+Proof. exact (in_contractb_spec). Qed.
+Print Assumptions C01_scripted_operations_are_in_the_domain.
+
+Theorem C01_loads_between_instances_are_in_the_domain :
+  forall (P : Type) (cfg : config) (si sj : mstate P),
+         1 <= c_n cfg <= 255 ->
+         saver_okb P cfg (co P sj) = true ->
+         c_manual cfg || is_onb P cfg si = true -> in_contract P cfg si (OLoad P (save P cfg (co P sj))).
+Proof. exact (load_from_in_contract). Qed.
+Print Assumptions C01_loads_between_instances_are_in_the_domain.
 
